@@ -53,24 +53,45 @@ package main
 //@ modifies *
 //@ ensures[C20] result != nil
 
+// Every event carries the pending field name exactly when one was set (whatever the event
+// writer believes about being inside a struct), the pending annotations in order, the depth at
+// which it occurs and the type and text the caller gave it; the pending state is consumed.
 //@ func (*eventwriter).write
-//@ trusted thin: assumed to consume the pending field name and annotations and nothing else of the event writer (the encoder it hands the event to is not under contract)
+//@ requires e.enc != nil && ev.FieldName == nil && len(ev.Annotations) == 0
 //@ modifies e.fieldname, e.annotations
+//@ invariant loop0 [asyms []ion.SymbolToken, annos []ion.SymbolToken] len(asyms) == len(annos) && len(annos) == old(len(e.annotations)) && e.fieldname == nil && len(e.annotations) == 0
+//@ atcall[C20] (*Encoder).Encode :: *ion.Encoder, interface{} :: vcIsEvent(a1) && (vcAsEvent(a1).FieldName != nil) == (old(e.fieldname) != nil)
+//@ atcall[C20] (*Encoder).Encode :: *ion.Encoder, interface{} :: old(e.fieldname) != nil ==> vcAsEvent(a1).FieldName.Text == old(e.fieldname)
+//@ atcall[C20] (*Encoder).Encode :: *ion.Encoder, interface{} :: vcAsEvent(a1).Depth == e.depth && vcAsEvent(a1).EventType == ev.EventType && vcAsEvent(a1).IonType == ev.IonType && vcAsEvent(a1).ValueText == ev.ValueText
+//@ atcall[C20] (*Encoder).Encode :: *ion.Encoder, interface{} :: len(vcAsEvent(a1).Annotations) == old(len(e.annotations))
+//@ ensures[C20] e.fieldname == nil && len(e.annotations) == 0
+//@ safe[C06,C20]
 
 //@ func (*eventwriter).BeginStruct
 //@ split returns
-//@ requires e.inStruct != nil
+//@ requires e.inStruct != nil && e.enc != nil
 //@ modifies *
 //@ ensures[C20] err == nil ==> e.depth == old(e.depth)+1
 //@ safe[C06,C20]
 
+// Leaving a struct clears the struct flag of the level that is left and of no other level.
+//@ func (*eventwriter).EndStruct
+//@ requires e.inStruct != nil && e.enc != nil
+//@ modifies *
+//@ ensures[C20] e.depth == old(e.depth)-1
+//@ ensures[C20] !e.inStruct[old(e.depth)]
+//@ ensures[C20] forall d int :: d != old(e.depth) ==> e.inStruct[d] == old(e.inStruct[d])
+//@ safe[C06,C20]
+
 //@ func (*eventwriter).BeginList
 //@ split returns
+//@ requires e.enc != nil
 //@ modifies *
 //@ ensures[C20] err == nil ==> e.depth == old(e.depth)+1
 
 //@ func (*eventwriter).BeginSexp
 //@ split returns
+//@ requires e.enc != nil
 //@ modifies *
 //@ ensures[C20] err == nil ==> e.depth == old(e.depth)+1
 
